@@ -82,7 +82,7 @@ def evaluate(case: Dict[str, Any]) -> Dict[str, Any]:
 
 
 def features(r):
-    return {"jac": r.choice(["callable"] * 3 + ["2-point"]),
+    return {"jac": r.choice(["callable"] * 3 + ["2-point", "3-point", "cs", "none"]),
             "callback": r.choice(["false", "stop"]), "ftarget": r.choice(["callable", "float", "none"]),
             "gtol_callable": r.random() < 0.6, "scaler": r.choice(["const", "none"]),
             "update": r.choice(["identity", "none", "rescale"])}
